@@ -39,9 +39,29 @@ fn parse_value<'a>(src: &mut &'a [u8]) -> io::Result<&'a BStr> {
 }
 
 fn parse_string<'a>(src: &mut &'a [u8]) -> io::Result<&'a BStr> {
-    let Some(i) = src.iter().position(|c| *c == DOUBLE_QUOTES) else {
+    const BACKSLASH: u8 = b'\\';
+
+    // Find the closing quotation mark, i.e., the first one that is not escaped.
+    let mut i = 0;
+    let mut is_escaped = false;
+
+    while i < src.len() {
+        let c = src[i];
+
+        if is_escaped {
+            is_escaped = false;
+        } else if c == BACKSLASH {
+            is_escaped = true;
+        } else if c == DOUBLE_QUOTES {
+            break;
+        }
+
+        i += 1;
+    }
+
+    if i == src.len() {
         return Err(io::Error::from(io::ErrorKind::InvalidData));
-    };
+    }
 
     let (buf, rest) = src.split_at(i);
     *src = &rest[1..];
